@@ -78,7 +78,7 @@ Lemma step_eager (s : st) (o : op) p :
     rows s' = rows s /\ eager_at s' (p + d) /\
     delivered x = firstn d (skipn p (rows s)) /\ length (delivered x) = d.
 Proof.
-  intros (Hl & Hc & Hp) Ha. destruct o as [|k| |n| | |r]; try discriminate;
+  intros (Hl & Hc & Hp) Ha. destruct o as [|k| |n| | |r|r]; try discriminate;
     unfold step; rewrite ?Hc, ?Hl.
   - (* fetchone *)
     destruct (nth_error (rows s) p) as [r|] eqn:E.
@@ -110,6 +110,10 @@ Proof.
     split; [reflexivity|]. split; [|split; reflexivity].
     ea.
   - exists 0. cbn [delivered rows lazy cur asz firstn length].
+    split; [reflexivity|]. split; [|split; reflexivity].
+    ea.
+  - (* failed append: nothing moves *)
+    exists 0. cbn [delivered rows lazy cur asz firstn length].
     split; [reflexivity|]. split; [|split; reflexivity].
     ea.
 Qed.
@@ -214,6 +218,130 @@ Lemma append_kills_cursor (s : st) (r : A) :
                     rows (fst (step s (Append r))) = rows s ++ [r].
 Proof. intros H; unfold step; rewrite H; cbn; unfold dead; auto. Qed.
 
+
+Lemma append_kills_cursor_aux (s : st) (r : A) p :
+  eager_at s p -> let '(s1, x) := step s (Append r) in
+  dead s1 /\ rows s1 = rows s ++ [r] /\ delivered x = [].
+Proof. intros (Hl & _ & _). unfold step. rewrite Hl. cbn [delivered rows lazy cur]. unfold dead. cbn. auto. Qed.
+
+(* ---------- any eager history: appends that store, appends that fail, everything else ---------- *)
+Lemma appended_of_nil (o : op) : is_append o = false -> appended_of o = [].
+Proof. destruct o; cbn; intros H; try reflexivity; discriminate. Qed.
+
+Lemma appended_nil_iff (ops : list op) : existsb is_append ops = false <-> appended ops = [].
+Proof.
+  induction ops as [|o r IH]; cbn [existsb appended flat_map]; [tauto|].
+  fold (appended r). destruct o; cbn [is_append appended_of orb app]; try exact IH.
+  split; intros H; discriminate.
+Qed.
+
+Lemma step_dead_full (s : st) (o : op) :
+  dead s -> let '(s1, x) := step s o in
+  dead s1 /\ rows s1 = rows s ++ appended_of o /\ delivered x = [].
+Proof.
+  intros (Hl & Hc). destruct o; unfold step; rewrite ?Hc, ?Hl;
+    cbn [appended_of delivered rows lazy cur]; unfold dead; cbn [rows lazy cur];
+    rewrite ?app_nil_r; auto.
+Qed.
+
+Lemma run_dead_full (ops : list op) : forall s, dead s ->
+  let '(s', xs) := run s ops in
+  dead s' /\ rows s' = rows s ++ appended ops /\ fetched xs = [].
+Proof.
+  induction ops as [|o r IH]; intros s Hd; cbn [run].
+  - cbn [appended flat_map fetched]. rewrite app_nil_r. auto.
+  - pose proof (step_dead_full s o Hd) as H1. destruct (step s o) as [s1 x].
+    destruct H1 as (D1 & R1 & F1). specialize (IH s1 D1).
+    destruct (run s1 r) as [s2 xs]. destruct IH as (D2 & R2 & F2).
+    split; [exact D2|]. split.
+    + rewrite R2, R1. cbn [appended flat_map]. now rewrite app_assoc.
+    + unfold fetched in *. cbn [flat_map]. now rewrite F1, F2.
+Qed.
+
+Lemma run_any (ops : list op) : forall (s : st) p,
+  eager_at s p ->
+  let '(s', xs) := run s ops in
+  lazy s' = false /\ rows s' = rows s ++ appended ops /\
+  exists d, fetched xs = firstn d (skipn p (rows s)) /\ length (fetched xs) = d /\
+            p + d <= length (rows s) /\
+            cur s' = (if existsb is_append ops then None else Some (p + d)).
+Proof.
+  induction ops as [|o r IH]; intros s p He; cbn [run].
+  - cbn [appended flat_map fetched existsb]. rewrite app_nil_r.
+    destruct He as (Hl & Hc & Hp). split; [exact Hl|]. split; [reflexivity|].
+    exists 0. cbn [firstn length]. replace (p + 0) with p by lia. auto.
+  - destruct (is_append o) eqn:Ha.
+    + (* an append that stores its row: the cursor is gone for the rest of the history *)
+      destruct o as [|k| |n| | |r0|r0]; try discriminate.
+      pose proof (append_kills_cursor_aux s r0 p He) as H1.
+      destruct (step s (Append r0)) as [s1 x]. destruct H1 as (D1 & R1 & F1).
+      pose proof (run_dead_full r s1 D1) as H2.
+      destruct (run s1 r) as [s2 xs]. destruct H2 as ((Hl2 & Hc2) & R2 & F2).
+      split; [exact Hl2|]. split.
+      * rewrite R2, R1. cbn [appended flat_map appended_of]. now rewrite <- app_assoc.
+      * exists 0. unfold fetched in *. cbn [flat_map existsb is_append orb firstn length].
+        rewrite F1, F2. cbn [app length]. destruct He as (_ & _ & Hp).
+        repeat split; auto; lia.
+    + destruct (step_eager s o p He Ha) as [d1 H1].
+      destruct (step s o) as [s1 x]. destruct H1 as (R1 & E1 & D1 & L1).
+      specialize (IH s1 (p + d1) E1).
+      destruct (run s1 r) as [s2 xs]. destruct IH as (Hl2 & R2 & d2 & D2 & L2 & Hp2 & Hc2).
+      split; [exact Hl2|]. split.
+      * rewrite R2, R1. cbn [appended flat_map]. now rewrite (appended_of_nil o Ha).
+      * exists (d1 + d2). cbn [existsb]. rewrite Ha. cbn [orb].
+        rewrite R1 in D2, Hp2. split; [|split; [|split]].
+        -- unfold fetched in *; cbn [flat_map]. rewrite D1, D2.
+           rewrite <- (firstn_add_skipn (skipn p (rows s)) d1 d2). now rewrite skipn_add.
+        -- unfold fetched in *; cbn [flat_map]. rewrite app_length. lia.
+        -- lia.
+        -- rewrite Hc2. destruct (existsb is_append r); [reflexivity|f_equal; lia].
+Qed.
+
+(* Every history on an eagerly created frame - stored appends, failed appends and all:
+   the row store is the original rows followed by exactly the rows the stored appends added
+   (a failed append leaves nothing behind); what was fetched is a prefix of the original
+   rows; and the cursor is gone exactly when some append stored a row. *)
+Lemma any_history (l : list A) (ops : list op) :
+  let '(s', xs) := run (init_eager l) ops in
+  rows s' = l ++ appended ops /\ lazy s' = false /\
+  fetched xs = firstn (length (fetched xs)) l /\ length (fetched xs) <= length l /\
+  cur s' = (if existsb is_append ops then None else Some (length (fetched xs))).
+Proof.
+  assert (He : eager_at (init_eager l) 0) by (unfold eager_at, init_eager; cbn; repeat split; lia).
+  pose proof (run_any ops _ 0 He) as H.
+  destruct (run (init_eager l) ops) as [s' xs]. destruct H as (Hl & R & d & D & L & Hp & Hc).
+  cbn [init_eager rows skipn Nat.add] in *. subst d.
+  split; [exact R|]. split; [exact Hl|]. split; [exact D|]. split; [lia|exact Hc].
+Qed.
+
+(* the frame has grown  <->  the cursor is gone;  the frame is as created  <->  the cursor
+   stands right after the rows delivered so far *)
+Lemma grown_iff_dead (l : list A) (ops : list op) :
+  let '(s', xs) := run (init_eager l) ops in
+  (length l < length (rows s') <-> cur s' = None) /\
+  (length (rows s') = length l <-> cur s' = Some (length (fetched xs))).
+Proof.
+  pose proof (any_history l ops) as H.
+  destruct (run (init_eager l) ops) as [s' xs]. destruct H as (R & _ & _ & _ & Hc).
+  rewrite R, app_length, Hc.
+  destruct (existsb is_append ops) eqn:E.
+  - assert (appended ops <> []) as Hne.
+    { intros C. apply appended_nil_iff in C. congruence. }
+    assert (0 < length (appended ops)) by (destruct (appended ops); [congruence|cbn; lia]).
+    split; split; intros; try reflexivity; try lia; discriminate.
+  - apply appended_nil_iff in E. rewrite E. cbn [length].
+    split; split; intros; try reflexivity; try lia; discriminate.
+Qed.
+
+(* one append call on a materialised frame is all or nothing, and reports the store length *)
+Lemma append_atomic (s : st) (r : A) :
+  lazy s = false ->
+  (let '(s1, x1) := step s (Append r) in
+     rows s1 = rows s ++ [r] /\ cur s1 = None /\ x1 = OAppend true (Some (length (rows s1)))) /\
+  (let '(s2, x2) := step s (AppendBad r) in
+     s2 = s /\ x2 = OAppend false (Some (length (rows s)))).
+Proof. intros H. unfold step. rewrite H. cbn [rows cur]. repeat split. Qed.
+
 (* ---------- lazy frames read only through the cursor ---------- *)
 Definition cursor_only (o : op) : bool := negb (is_append o) && negb (is_mat o).
 
@@ -224,11 +352,12 @@ Lemma step_lazy (s : st) (o : op) :
   let '(s', x) := step s o in
   lazy_live s' /\ delivered x ++ rows s' = rows s.
 Proof.
-  intros (Hl & p & Hc) Ho. destruct o as [|k| |n| | |r]; cbn in Ho; try discriminate;
+  intros (Hl & p & Hc) Ho. destruct o as [|k| |n| | |r|r]; cbn in Ho; try discriminate;
     unfold step; rewrite ?Hc, ?Hl; unfold lazy_live.
   - destruct (rows s) as [|r rest] eqn:E; cbn [delivered rows lazy cur app]; rewrite ?Hl, ?Hc, ?E; split; eauto.
   - cbn [delivered rows lazy cur app]. split; eauto. apply firstn_skipn.
   - cbn [delivered rows lazy cur app]. split; eauto. apply app_nil_r.
+  - cbn [delivered rows lazy cur app]. split; eauto.
   - cbn [delivered rows lazy cur app]. split; eauto.
   - cbn [delivered rows lazy cur app]. split; eauto.
 Qed.
